@@ -177,7 +177,7 @@ Hypothesis H_tz : forall z u, in_dt_range u = true ->
   o_dt_offset orc z (Some (o_ts_offset orc z u)) (u + o_ts_offset orc z u) = o_ts_offset orc z u.
 
 (* the .error a reloaded cell ends up with *)
-Definition reload_err (n : nat) (v : value) : option str :=
+Definition reload_err (n : nat) (v : value) : option errdesc :=
   match encode_f orc n v with
   | PList _ _ => decoded_err orc n (encode_f orc n v)
   | _ => None
@@ -221,6 +221,43 @@ Proof.
        | apply set_okd; apply decode_tagged_okd; exact Htag ]). }
   destruct Hset as [w [Hw Henc]]. rewrite Hw. cbn [bind].
   exists w, (reload_err n v). split; [reflexivity|]. rewrite Henc. exact EDE.
+Qed.
+
+(* ---- error cells ---------------------------------------------------------------------------------------- *)
+
+Lemma col_set_err : forall T a b c u, col_set orc T (PErr a b c u) = Ok (PErr a b c u).
+Proof. intros T a b c u. destruct T; reflexivity. Qed.
+
+Lemma e_args_ok_trimmed : forall n a b c, e_args_ok n (trim_args [a; b; c; PNone]) = true.
+Proof.
+  intros n a b c. cbn [trim_args]. rewrite trim_nones_3.
+  destruct (isnone c); [destruct (isnone b)|]; unfold e_args_ok; rewrite ?shift_or_cons; reflexivity.
+Qed.
+
+(* An error cell whose saved name is a str comes back as an error with the same name, message and details, and with a
+   stand-in .error of that class carrying the saved message.  (With user input, the stack must allow the nested
+   encode_object call; the user input itself comes back as decode_object makes it.) *)
+Theorem reload_error_cell : forall T n nm msg details ui err,
+  marshal_rt (encode_f orc n (PErr (PStr false nm) msg details ui)) ->
+  vforall node_ok (PErr (PStr false nm) msg details ui) = true ->
+  (ui = None \/ exists k, n = S k) ->
+  exists ui', reload orc marshal unmarshal T n (PErr (PStr false nm) msg details ui, err) =
+              Ok (PErr (PStr false nm) msg details ui', Some (nm, Some (exc_text orc msg))).
+Proof.
+  intros T n nm msg details ui err Hmr Hok Hfuel.
+  rewrite reload_unfold by (try exact Hmr; apply encode_marshalable; exact Hok).
+  unfold reload_err, decoded_err.
+  destruct ui as [u|].
+  - destruct Hfuel as [Hc|[k ->]]; [discriminate Hc|].
+    change (encode_f orc (S k) (PErr (PStr false nm) msg details (Some u)))
+      with (tag "E" (trim_args [PStr false nm; msg; details; PDict [(PStr false (Str "u"), encode_f orc k u)]])).
+    rewrite decode_E_some. rewrite col_set_err. cbn [bind].
+    exists (Some (decode_f orc k (encode_f orc k u))).
+    cbn [trim_args trim_nones]. unfold tag, e_form_ok, e_args_ok. rewrite !shift_or_cons. reflexivity.
+  - assert (He : encode_f orc n (PErr (PStr false nm) msg details None) = tag "E" (trim_args [PStr false nm; msg; details; PNone]))
+      by (destruct n; reflexivity).
+    rewrite He, decode_E_none, col_set_err. cbn [bind]. exists None.
+    unfold tag at 1. unfold e_form_ok. unfold tag. rewrite e_args_ok_trimmed. reflexivity.
 Qed.
 
 (* ---- values that come back as the same object ------------------------------------------------------ *)
